@@ -42,6 +42,7 @@ type Scenario struct {
 	Vanish       bool // a consumer stops reading mid-stream: the daemon's write to it fails (C01)
 	Starve       bool // one channel has a timeout on every scan tick while it also holds deferred messages (C04 "soon after")
 	RdyZero      bool // an idle consumer lowers RDY / CLS / its channel is paused, long before the next publish (C03)
+	ReIdentify   bool // connections IDENTIFY twice, negotiating the same compression again, before they publish / subscribe (C07)
 	MixedTmo     bool // two consumers of one channel with different negotiated msg_timeouts (C04)
 	PauseBacklog bool // topic paused in the middle of fanning out a backlog (C03)
 	Lonely       bool // an extra topic without any channel until the drain (C13: it is reported all the same)
@@ -67,6 +68,9 @@ func (s Scenario) String() string {
 	}
 	if s.MixedTmo {
 		feat += " mixed-timeouts"
+	}
+	if s.ReIdentify {
+		feat += " identify-twice"
 	}
 	if s.PauseBacklog {
 		feat += " pause-backlog"
@@ -150,6 +154,7 @@ func genScenario(mode string, seed int64) Scenario {
 		s.DeflateLvl = 1 + r.Intn(9) // may exceed the daemon's max-deflate-level (6): it is clamped
 		s.Snappy = !s.Deflate && r.Intn(2) == 0
 		s.TLS = r.Intn(3) == 0
+		s.ReIdentify = (s.Deflate || s.Snappy) && rand.New(rand.NewSource(seed*977+3)).Intn(2) == 0
 		s.OutBufSize = []int{0, 64, 16384, 65536}[r.Intn(4)]
 		s.MsgTimeout = 5 * time.Second
 		s.MaxMsgTmo = 15 * time.Second
@@ -285,7 +290,15 @@ func (r *Run) publisher(p int, seed int64, count int, startIdx int) {
 	defer cn.close()
 	pextra := map[string]interface{}{}
 	r.features(pextra)
-	if _, err := cn.identify(pextra); err != nil {
+	ident := cn.identify
+	if r.sc.ReIdentify {
+		ident = cn.identifyTwice
+	}
+	if _, err := ident(pextra); err != nil {
+		if se, ok := err.(*secondIdentifyErr); ok {
+			r.failf("[C07] a connection that negotiated %s and then sent IDENTIFY again with the same options could not read the daemon's answer: %v", r.sc.String()[strings.Index(r.sc.String(), "pubs="):], se)
+			return
+		}
 		r.inconclusive("publisher identify: %v", err)
 		return
 	}
@@ -475,7 +488,14 @@ func (r *Run) newConsumer(topic, channel string, person int, rdy int64) (*consum
 		extra["sample_rate"] = r.sc.SampleRate
 	}
 	r.features(extra)
-	if _, err := cn.identify(extra); err != nil {
+	ident := cn.identify
+	if r.sc.ReIdentify {
+		ident = cn.identifyTwice
+	}
+	if _, err := ident(extra); err != nil {
+		if se, ok := err.(*secondIdentifyErr); ok {
+			r.failf("[C07] a consumer that negotiated compression and then sent IDENTIFY again with the same options could not read the daemon's answer: %v", se)
+		}
 		return nil, err
 	}
 	if err := cn.sub(topic, channel); err != nil {
